@@ -41,7 +41,9 @@ CLAIM = dict(
           "exact for the block the controller was told about, the leak ends with free_rtr_by_app (alloc_retransmit_leak, "
           "alloc_retransmit_refused, leak_recovered_by_clear). Cross-model: conversion C10 entry <-> C04 entry preserves "
           "matches and first-match lookup for all 32-bit keys (toC04_lookup, ofC04_lookup, round trips), so tables from "
-          "treeTables can be fed to C04's theorems (treeTables_c04_lookup). Tied to the code by exact table "
+          "treeTables can be fed to C04's theorems (treeTables_c04_lookup), and the router's lowest-matching-row decision "
+          "after a load is that lookup (loaded_router_lookup, loaded_router_lookup_c04; assuming no used row outside the "
+          "block matches the key). Tied to the code by exact table "
           "correspondence on generated forests and by request-trace and final-router correspondence of the real "
           "MachineController against the Lean machine `runM` (the function the theorems are about) and a simulated router "
           "that is itself replayed through the Lean specification on every run, including a stream in which alloc_rtr "
@@ -69,7 +71,7 @@ THEOREMS = ["routes_enum_documented", "traverse_exact", "tables_exact", "multiso
             "alloc_retransmit_leak", "alloc_retransmit_refused", "leak_recovered_by_clear",
             # Props/C10Cross.lean: C10 entries <-> C04 entries
             "toC04_matches", "toC04_lookup", "ofC04_lookup", "toC04_route_bits", "toC04_sources_bits", "toC04_ofC04",
-            "ofC04_toC04", "treeTables_c04_lookup"]
+            "ofC04_toC04", "treeTables_c04_lookup", "loaded_router_lookup", "loaded_router_lookup_c04"]
 
 RULE = ("pure cases = forests of 1-6 nets on a 4x4 torus: random branching trees/chains with vertex leaves (core route, link "
         "route or None), key/mask drawn from a pool of 1-3 so nets share them, later nets re-using (copying) subtrees of "
@@ -1012,7 +1014,7 @@ def run(ctx):
         eval_forests(ctx, forests[i:i + 2000])
     eval_codec(ctx, gen_codec(ctx.rng, n_codec))
     eval_loads(ctx, gen_load_cases(ctx, n_load))
-    eval_loads(ctx, gen_load_cases(ctx, ctx.scale(40, 600) * mult, lost=True))
+    eval_loads(ctx, gen_load_cases(ctx, ctx.scale(40, 400) * mult, lost=True))
 
 
 def replay(ctx, payload):
